@@ -48,13 +48,24 @@ def run_case(case: dict) -> dict:
         # bit fields of a signed variable: raw values are logged as their two's-complement image
         _w = 8 * enc.NUM_SIZE[t]
         lb = lambda x: limb(x % (1 << _w))     # noqa: E731
+    fn_api = case.get("fn_api", False)
+    step = [0]
+
+    def use_fn():
+        # the function spellings read(fmt) / write(value, fmt) on every other access of such cases
+        step[0] += 1
+        return fn_api and step[0] % 2 == 0
+
     for op in case["ops"]:
         o = op["op"]
         e = {"e": o, "ok": True}
         try:
             if o == "setraw":
                 e["v"] = lb(op["v"])
-                var.raw = op["v"]
+                if use_fn():
+                    var.write(op["v"], fmt="raw") if step[0] % 4 else var.write(op["v"])
+                else:
+                    var.raw = op["v"]
             elif o == "setdata":
                 # the value changes by a path other than .raw on this object (a received PDO / the
                 # device changing its own object / a write through .data)
@@ -71,17 +82,23 @@ def run_case(case: dict) -> dict:
                     pm.on_message(pm.cob_id, bytearray(b), 1.0) if op.get("how") == "other" and pm.cob_id else var.set_data(b)
             elif o == "phys_set":
                 e["vn"], e["vd"] = op["vn"], op["vd"]
-                var.phys = op["vn"] / op["vd"]
-                e["after"] = lb(var.raw)
+                if use_fn():
+                    var.write(op["vn"] / op["vd"], fmt="phys")
+                else:
+                    var.phys = op["vn"] / op["vd"]
+                e["after"] = lb(var.read("raw") if use_fn() else var.raw)
             elif o == "phys_get":
-                p = var.phys
+                p = var.read(fmt="phys") if use_fn() else var.phys
                 e["P"] = int(round(Fraction(p) * fd * K))
             elif o == "desc_set":
                 e["name"] = op["name"]
-                var.desc = op["name"]
-                e["after"] = lb(var.raw)
+                if use_fn():
+                    var.write(op["name"], fmt="desc")
+                else:
+                    var.desc = op["name"]
+                e["after"] = lb(var.read() if use_fn() else var.raw)
             elif o == "desc_get":
-                e["name"] = var.desc
+                e["name"] = var.read(fmt="desc") if use_fn() else var.desc
             elif o in ("bits_set", "bits_get"):
                 sp = op["spelling"]
                 bits = list(op["bits"])
